@@ -179,9 +179,10 @@ Definition mismatch (c : case) : bool :=
 Definition starts_with_slash (p : list Z) : bool := match p with c :: _ => c =? 47 | [] => false end.
 Definition panicked_obs (o : obs) : bool := match o with OPanic => true | _ => false end.
 
+(* CFilter: nothing that is empty or does not begin with '/' reaches the handlers behind the filter *)
 Definition spec_fail (c : case) : bool :=
   match c with
-  | CFilter _ _ panicked => panicked
+  | CFilter path passed panicked => panicked || (passed && negb (starts_with_slash path))
     (* a direct call stands behind no filter: a panic counts only on a path the filter lets through *)
   | CHls wire _ path _ o => panicked_obs o && (wire || starts_with_slash path)
   | CWebrtc _ _ _ _ o => panicked_obs o
